@@ -80,6 +80,14 @@ M("c08-yield-between-id-and-send", "C08", "break", (V, "            msgbuf += hd
 M("c09-ttl-forever-by-identity", "C04,C05,C06,C09", "break", (S, "        if ttl != TTL_FOREVER:", "        if ttl is not TTL_FOREVER:"))
 M("c09-twin-ttl-forever-not-equal", "C04,C05,C06,C09", "benign", (S, "        if ttl != TTL_FOREVER:", "        if not ttl == TTL_FOREVER:"))
 
+M("c13-entries-skips-untimed-records", "C13", "break", (S, "        return itertools.chain.from_iterable(x.keys() for x in self.store.values())", "        return [k for x in self.store.values() for k, (_cb, handle) in x.items() if handle]"))
+M("c13-twin-entries-as-generator", "C13,C05", "benign", (S, "        return itertools.chain.from_iterable(x.keys() for x in self.store.values())", "        for per_address in self.store.values():\n            yield from per_address"))
+M("c14-refresh-ends-for-infinite-ttl", "C14,C04", "break", (S, "            if self.timings.SUBSCRIBE_REFRESH_INTERVAL is None:\n                break\n", "            if self.timings.SUBSCRIBE_REFRESH_INTERVAL is None or self.timings.SUBSCRIBE_TTL >= TTL_FOREVER:\n                break\n"))
+M("c14-twin-refresh-interval-local", "C14,C04", "benign", (S, "            if self.timings.SUBSCRIBE_REFRESH_INTERVAL is None:\n                break\n", "            interval = self.timings.SUBSCRIBE_REFRESH_INTERVAL\n            if interval is None:\n                break\n"))
+M("c10-infinite-ttl-skips-cyclic-phase", "C10,C04", "break", (S, "            if not self.timings.CYCLIC_OFFER_DELAY:  # 4.2.1 SWS_SD_00451\n                return\n", "            if not self.timings.CYCLIC_OFFER_DELAY or ttl == TTL_FOREVER:  # 4.2.1 SWS_SD_00451\n                return\n"))
+M("c01-return-code-half-open-range", "C01", "break", (H, "            rc = SOMEIPReturnCode(rc_b)\n", "            if rc_b not in range(SOMEIPReturnCode.E_OK, SOMEIPReturnCode.E_WRONG_MESSAGE_TYPE):\n                raise ValueError(rc_b)\n            rc = SOMEIPReturnCode(rc_b)\n"))
+M("c01-twin-return-code-closed-range", "C01,C03,C18,C20", "benign", (H, "            rc = SOMEIPReturnCode(rc_b)\n", "            if rc_b not in range(SOMEIPReturnCode.E_OK, SOMEIPReturnCode.E_WRONG_MESSAGE_TYPE + 1):\n                raise ValueError(rc_b)\n            rc = SOMEIPReturnCode(rc_b)\n"))
+
 # ---------------------------------------------------------------- C07
 M("c07-ge-to-gt", "C07", "break", (S, "old_session_id >= session_id", "old_session_id > session_id"))
 M("c07-key-without-channel", "C07", "break", (S, "k = (sender, multicast)", "k = (sender,)"))
